@@ -49,7 +49,7 @@ def check(ctx, tier):
     tk.purity("C17.j", [fn for fn in fs if fn.name not in ("__init__",)], "operations on 2-D run-length arrays do not modify their operands", content_only=True)
     W.report(ctx, tk, "C17.k", fs)
     from .. import hazards as _hz, scopes as _sc
-    _hz.generic(ctx, tk, "C17.z", _sc.scope(tk, "C17", depth=2))
+    _hz.generic(ctx, tk, "C17.z", _sc.scope(tk, "C17", depth=1))
     return {}
 
 
